@@ -133,7 +133,7 @@ Definition apply_entry (e : env) (sv : server) (en : entry) : outcome :=
   | EDeath id un session cmid data =>
       match update_last_cmid (session, 0%N) (timestamp id un) data cmid sv with
       | Some sv' => OOk sv' []
-      | None => OOk sv []
+      | None => OSkip sv
       end
   | ECreate id un auth =>
       match create_session (id, 0%N) auth (timestamp id un) sv (RCtx id []) with
